@@ -24,6 +24,14 @@ is run from BOTH the loaded and the never-saved object: values bit-identical,
 entry lists identical.  netCDF4/HDF5/xarray are NOT modelled in Lean (the model
 takes the round trip to be the identity, theorem save_load_identity): this
 clause of C16 is decided ONLY by this differential run.
+Truthfulness THROUGH THE LEARNER MODEL: for the leading ndl.ndl calls of every
+chain (save_load steps in between are the identity in the model) the driver op
+`ndl_chain_meta` runs `ndlChainMeta` (PyndlProofs/AttrsNdl.lean, the subject of
+`ndl_chain_reports`; driver copy `ndlChainMetaD`, proved equal in
+PyndlProofs/DriverBridge.lean) on the EVENTS of the files and the parameters of
+the calls: `number_events` is then the count the learner model `ndlCall`
+returns, not a string computed here; every entry of every exact key is compared
+with the real attrs as for `attrs_chain` (problems prefixed `ndl_chain_meta:`).
 Stream `mixed_keysets` (dict_wh / dict_ndl chains over WeightDicts, the only
 way the public API mixes the two key sets) is compared with the model only: a
 key first written by call j >= 3 has k-j+2 entries in code and model alike
@@ -31,6 +39,7 @@ key first written by call j >= 3 has k-j+2 entries in code and model alike
 """
 import ast
 import copy
+from fractions import Fraction
 
 import gen
 from common import rng
@@ -270,6 +279,79 @@ def model_request(case, impl):
             'ops': ops}
 
 
+def ndl_prefix(case):
+    """indices of the steps that form the leading run of ndl.ndl calls (save_load steps in between included)"""
+    idx = []
+    for si, s in enumerate(case['steps']):
+        if s['kind'] == 'save_load':
+            if idx:
+                idx.append(si)
+            continue
+        if s['learner'] != 'ndl':
+            break
+        idx.append(si)
+    while idx and case['steps'][idx[-1]]['kind'] == 'save_load':
+        idx.pop()
+    return idx
+
+
+def _q(s):
+    f = Fraction(lit(s))
+    return '%d/%d' % (f.numerator, f.denominator)
+
+
+def ndl_meta_request(case, impl):
+    """driver op ndl_chain_meta for the leading ndl.ndl calls: the EVENTS each file means and the numbers /
+    str() forms each call got; None when the chain does not start with ndl.ndl"""
+    idx = ndl_prefix(case)
+    if not idx:
+        return None
+    isteps = impl.get('steps', [])
+    runs = []
+    for si in idx:
+        s = case['steps'][si]
+        if s['kind'] == 'save_load':
+            continue
+        ist = isteps[si] if si < len(isteps) else {}
+        f = case['files'][s['file']]
+        a = lit(s['alpha'])
+        runs.append({'path': (ist.get('passed_path') or '') if s.get('form', 'path') in ('path', 'pathobj') else '',
+                     'events': gen.file_norm(gen.expand(f['events'], f.get('freq'))),
+                     'policy': 'error', 'method': s['method'], 'per_job': int(s.get('per_job', 10)),
+                     'per_file': 10000000 if s.get('per_file') is None else int(s['per_file']),
+                     'alpha': _q(s['alpha']), 'beta1': _q(s['beta1']), 'beta2': _q(s['beta2']), 'lambda': _q(s['lambda']),
+                     'alpha_repr': str(a), 'betas': str((lit(s['beta1']), lit(s['beta2']))),
+                     'lambda_repr': str(lit(s['lambda']))})
+    return {'op': 'ndl_chain_meta', 'hostname': impl.get('hostname', ''), 'username': impl.get('username', ''), 'runs': runs}
+
+
+def compare_ndl_meta(case, impl, meta):
+    """the real attrs of the leading ndl.ndl calls against `ndlChainMeta` (count from the learner model)"""
+    idx = ndl_prefix(case)
+    if meta is None or not idx or 'err' in impl:
+        return []
+    steps = [None] * (idx[-1] + 1)
+    runs = iter(meta['steps'])
+    probs = []
+    cut = idx[-1] + 1
+    for si in idx:
+        if case['steps'][si]['kind'] == 'save_load':
+            continue
+        m = next(runs)
+        if m is not None and 'err' in m:
+            ist = impl['steps'][si] if si < len(impl['steps']) else {}
+            if ist.get('err') != m['err']:
+                probs.append((si, 'ndlChainMeta predicts %s, implementation %s' % (m['err'], ist.get('err', 'returned'))))
+            cut = si
+            break
+        if m is not None:
+            m = {k: v for k, v in m.items() if k != 'n_events'}
+        steps[si] = m
+    sub = dict(case, steps=case['steps'][:cut])
+    probs += compare(sub, dict(impl, steps=impl['steps'][:cut]), {'steps': steps[:cut]}) if cut else []
+    return [(si, 'ndl_chain_meta: ' + d) for si, d in probs if not d.startswith('netCDF') and 'loaded weights' not in d]
+
+
 def unpredictable_width(step):
     return step['learner'] == 'dict_ndl' or (step['learner'] == 'ndl' and step.get('form') == 'generator')
 
@@ -352,10 +434,18 @@ def compare(case, impl, model):
     return probs
 
 
+def compare_all(case, impl, model, meta):
+    probs = compare(case, impl, model) + compare_ndl_meta(case, impl, meta)
+    probs.sort(key=lambda p: (p[0], '(width rule)' in p[1]))
+    return probs
+
+
 def evaluate(pool, driver, case):
     impl = pool.map([impl_task(case)])[0]
     model = driver.ask([model_request(case, impl)])[0]
-    return compare(case, impl, model), impl, model
+    mq = ndl_meta_request(case, impl)
+    meta = driver.ask([mq])[0] if mq is not None else None
+    return compare_all(case, impl, model, meta), impl, model
 
 
 def shrink(pool, driver, case, first_bad, budget=14):
@@ -460,11 +550,16 @@ def describe(case):
 
 
 def run(rep, pool, driver, tier):
+    import bridge
+    bridge.check_bridges(rep)       # driver copies = the definitions of the theorems; TR.v commutes
     cs = cases(tier)
     impls = pool.map([impl_task(c) for c in cs])
     models = driver.ask([model_request(c, i) for c, i in zip(cs, impls)])
+    mreqs = [ndl_meta_request(c, i) for c, i in zip(cs, impls)]
+    mreps = iter(driver.ask([q for q in mreqs if q is not None]))
+    metas = [next(mreps) if q is not None else None for q in mreqs]
     failures = []
-    for c, impl, model in zip(cs, impls, models):
+    for c, impl, model, meta in zip(cs, impls, models, metas):
         calls = [s for s in c['steps'] if s['kind'] == 'call']
         saves = len(c['steps']) - len(calls)
         rep.case(describe(c) | {'files_events': [f['events'] for f in c['files']]}, nontrivial=len(calls) >= 2,
@@ -495,7 +590,13 @@ def run(rep, pool, driver, tier):
             if 'attrs' in st:
                 ev = st['attrs'].get('number_events', '')
                 rep.count('width:%s' % ('19' if len(ev.split(' | ')[-1]) == 19 else '>19'))
-        probs = compare(c, impl, model)
+        if meta is not None:
+            rep.count('ndl_chain_meta:chains')
+            rep.count('ndl_chain_meta:calls', len(meta['steps']))
+            rep.count('ndl_chain_meta:prefix_len:%d' % len(meta['steps']))
+            for m in meta['steps']:
+                rep.count('ndl_chain_meta:' + ('raises' if m is not None and 'err' in m else 'returns'))
+        probs = compare_all(c, impl, model, meta)
         if probs:
             failures.append((c, probs, impl, model))
         elif len(calls) >= 3:
@@ -518,8 +619,10 @@ def run(rep, pool, driver, tier):
                        'expected': {k: v for k, v in (model2['steps'][si] or {}).items() if k in EXACT}
                        if si < len(model2.get('steps', [])) and isinstance(model2['steps'][si], dict) else None,
                        'python': python_snippet(small),
-                       'theorem_or_stream': 'correspondence attrs_chain/%s vs Pyndl.Attrs.runOps (C16: entries_count, reports_call, '
-                                            'split_join); netCDF clauses: differential only' % c['stream'],
+                       'theorem_or_stream': ('correspondence attrs_chain/%s vs Pyndl.ndlChainMeta (C16 ndl_chain_reports: the count of '
+                                             'the learner model)' if p2[0][1].startswith('ndl_chain_meta') else
+                                             'correspondence attrs_chain/%s vs Pyndl.Attrs.runOps (C16: entries_count, reports_call, '
+                                             'split_join); netCDF clauses: differential only') % c['stream'],
                        'shrunk_from_steps': len(c['steps']), 'shrink_evaluations': used})
     rep.extra['failures_total'] = len(failures)
     rep.extra['partial'] = 'netCDF round trip and continuation from loaded weights: differential run only (not modelled)'
